@@ -63,3 +63,7 @@ add("C05", "exploration", "model-based property-based testing of handshake histo
 add("C10", "exploration", "model-based property-based testing of multi-session handshake/disconnect/timeout/replay histories against a session-table model and the event stream",
     "Up to 8 client objects over 4 identities and 5 addresses (several tokens per identity, several clients per address) race for 1-4 slots with lossy handshakes, disconnects from both sides, timeouts, genuine payloads and replays of any earlier datagram from any address; table invariants (unique ids, unique addresses, capacity), event alternation, identity of every connect, origin of every datagram-caused disconnect and routing of payloads are checked after every step.",
     NETNOTE, "DESIGN.md 4/C10")
+
+add("C17", "exploration", "exhaustive single-bit / truncation tampering of sample datagrams and tokens; property-based handshake/session histories with nonce-uniqueness oracle by trial decryption",
+    "Every bit and every truncation length of a sample of every sealed packet kind and direction, every bit of a token's sealed part, nonce, protocol id and expiry, and every cross-key / cross-protocol opening must fail; in generated histories every emitted datagram is attributed to a key by trial decryption and no (endpoint, key) pair may seal two different datagrams with one sequence number.",
+    NETNOTE, "DESIGN.md 4/C17")
